@@ -62,6 +62,7 @@ type v20World struct {
 	events []string // global event log, `tr` lines
 	lastSt State
 	picks  []string // select branches observed through the service logger
+	lastPickSig bool
 
 	gen       atomic.Int64 // configuration generation = number of Factories() calls
 	started   map[string]bool
@@ -126,6 +127,13 @@ func (w *v20World) at(name string, gen int) {
 	}
 }
 
+// yield: race mode only — a scheduling point with a random short sleep (no gate)
+func (w *v20World) yield() {
+	if !w.gated.Load() {
+		w.at("yield", 0)
+	}
+}
+
 type v20Comp struct {
 	w    *v20World
 	gen  int
@@ -138,6 +146,8 @@ func (c *v20Comp) Start(context.Context, component.Host) error {
 	w := c.w
 	if c.name == "exp" {
 		w.at("start", c.gen)
+	} else {
+		w.yield()
 	}
 	if c.name == "recv" && w.startFail.Load() {
 		w.logf("s %d %s err", c.gen, c.name)
@@ -157,6 +167,8 @@ func (c *v20Comp) Shutdown(context.Context) error {
 		w.logf("xb %d", c.gen)
 		w.at("sd", c.gen)
 		fail = w.sdFail.Load()
+	} else {
+		w.yield()
 	}
 	w.mu.Lock()
 	w.shutdown[c.key()]++
@@ -185,6 +197,7 @@ var (
 func (w *v20World) factories() (Factories, error) {
 	g := int(w.gen.Add(1))
 	w.logf("fact %d", g)
+	w.yield()
 	mk := func(name string) *v20Comp {
 		w.logf("c %d %s", g, name)
 		return &v20Comp{w: w, gen: g, name: name}
@@ -288,7 +301,14 @@ func v20New(tb testing.TB) *v20World {
 			if k == "watcherr" || k == "async" || k == "shutdown" || k == "ctx" {
 				w.logLocked("stop " + k) // the implementation's own log says the loop is being left
 			}
+			// "Config updated" directly after "Received signal" belongs to the same select receive (SIGHUP)
+			first := !(k == "reload" && w.lastPickSig)
+			w.lastPickSig = k == "sig"
 			w.mu.Unlock()
+			if first {
+				// the select has received, the state is still Running: gate (det) / yield point (race)
+				w.at("sel", 0)
+			}
 		}
 		return nil
 	}
@@ -498,6 +518,9 @@ type v20Det struct {
 	multi      int // select with >= 2 ready branches
 	nops       int
 	bad        bool
+	skipped int // script tokens that were not applicable where they were due
+	// exhaustive enumeration: called once, at the decision point where the script ran out
+	onScriptEnd func()
 }
 
 func (d *v20Det) ready() int {
@@ -559,6 +582,9 @@ func (d *v20Det) release() { d.w.relCh <- struct{}{} }
 // external performs one external event while the Run goroutine is parked / in select / not started / returned.
 func (d *v20Det) external(kind int) {
 	w := d.w
+	if !d.canExternal(kind) {
+		return
+	}
 	switch kind {
 	case 0, 1, 2: // Shutdown() from 1..3 goroutines
 		k := 1
@@ -577,24 +603,14 @@ func (d *v20Det) external(kind int) {
 		}
 		d.emit(fmt.Sprintf("shutdown %d", k), d.stable())
 	case 3:
-		if len(d.sigs) >= 3 || d.at == "done" {
-			return
-		}
 		w.col.signalsChannel <- syscall.SIGHUP
 		d.sigs = append(d.sigs, syscall.SIGHUP)
 		d.emit("post hup", d.stable())
 	case 4:
-		if len(d.sigs) >= 3 || d.at == "done" {
-			return
-		}
 		w.col.signalsChannel <- syscall.SIGTERM
 		d.sigs = append(d.sigs, syscall.SIGTERM)
 		d.emit("post term", d.stable())
-	case 5, 6: // watch notification (ok / error): a provider notifies at most once per Retrieve, never after its Shutdown
-		if d.pendWatch > 0 || len(w.col.configProvider.Watch()) > 0 || d.at == "idle" || d.at == "done" || d.at == "prov" ||
-			(d.at == "sd" && d.sdIs == "final") || (d.at == "retrieve") {
-			return
-		}
+	case 5, 6:
 		if !w.postWatch(kind == 6) {
 			d.bad = true
 			return
@@ -602,21 +618,34 @@ func (d *v20Det) external(kind int) {
 		d.pendWatch, d.pendWErr = 1, kind == 6
 		d.emit(map[bool]string{false: "post watch", true: "post watcherr"}[kind == 6], d.stable())
 	case 7:
-		if d.at == "done" || d.pendAsync >= 2 {
-			return
-		}
 		w.postAsync()
 		d.pendAsync++
 		time.Sleep(200 * time.Microsecond) // let the sender block on the unbuffered channel
 		d.emit("post async", d.stable())
 	case 8:
-		if d.ctxDone {
-			return
-		}
 		w.cancel()
 		d.ctxDone = true
 		d.emit("cancel", d.stable())
 	}
+}
+
+// canExternal: may this external event be performed at the current point?
+func (d *v20Det) canExternal(kind int) bool {
+	w := d.w
+	switch kind {
+	case 0, 1, 2:
+		return true
+	case 3, 4: // the signal channel has capacity 3; nobody reads it after Run returned
+		return len(d.sigs) < 3 && d.at != "done"
+	case 5, 6: // watch notification (ok / error): a provider notifies at most once per Retrieve, never after its Shutdown
+		return !(d.pendWatch > 0 || len(w.col.configProvider.Watch()) > 0 || d.at == "idle" || d.at == "done" || d.at == "prov" ||
+			(d.at == "sd" && d.sdIs == "final") || (d.at == "sel" && d.sdIs == "final") || d.at == "retrieve")
+	case 7:
+		return d.at != "done" && d.pendAsync < 2
+	case 8:
+		return !d.ctxDone
+	}
+	return false
 }
 
 // stable: the observable state cannot change under our feet (Run parked, returned, not started, or in select with nothing ready)
@@ -700,14 +729,19 @@ func (d *v20Det) runCase(budget int, corpus []string) {
 			for {
 				if len(corpus) == 0 {
 					scripted, finishing = false, true
+					if d.onScriptEnd != nil {
+						d.onScriptEnd()
+					}
 					break
 				}
 				tok := corpus[0]
 				if tok == "go" || tok == "fail" {
-					if d.at != "select" && d.at != "done" {
-						corpus = corpus[1:]
-						outcomeFail = tok == "fail"
+					corpus = corpus[1:]
+					if d.at == "select" || d.at == "done" {
+						d.skipped++ // nothing to advance here (the select took another branch than in the run that generated the script)
+						continue
 					}
+					outcomeFail = tok == "fail"
 					break
 				}
 				corpus = corpus[1:]
@@ -784,6 +818,13 @@ func (d *v20Det) runCase(budget int, corpus []string) {
 				d.at = "select"
 				d.emit("start ok", false)
 			}
+		case "sel": // parked right after the select receive (state still Running): let it go on to the next gate
+			if fail {
+				d.fails--
+			}
+			d.release()
+			d.settle(false)
+			d.emit("sel", true)
 		case "sd":
 			w.sdFail.Store(fail)
 			is := d.sdIs
@@ -823,7 +864,7 @@ func TestVerifC20RunLoop(t *testing.T) {
 	n := vN(300)
 	corpus := [][]string{
 		// DESIGN §C20 finding (1): SIGHUP, then Shutdown() while the reload is in state Closing
-		{"go", "go", "go", "hup", "shutdown", "go", "go", "go"},
+		{"go", "go", "go", "hup", "go", "shutdown", "go", "go", "go"},
 	}
 	timeouts := 0
 	for _, c := range vCases(n) {
